@@ -1592,6 +1592,7 @@ class WassersteinDistanceNewton(VariationalWassersteinDistance):
             try:
                 # Keep track of old flux, and old distance
                 old_solution_i = solution_i.copy()
+                last_valid_distance = new_distance
                 flux = solution_i[self.flux_slice]
                 old_distance = self.l1_dissipation(flux)
 
@@ -1700,6 +1701,10 @@ class WassersteinDistanceNewton(VariationalWassersteinDistance):
             except Exception:
                 warnings.warn("Newton iteration abruptly stopped due to some error.")
                 abruptly_stopped = True
+                # The iterate may have been partially updated; fall back to the last
+                # valid iterate, which the reported distance refers to.
+                solution_i = old_solution_i
+                new_distance = last_valid_distance
                 break
 
         # Summarize profiling (time in seconds, memory in GB)
@@ -1878,6 +1883,7 @@ class WassersteinDistanceBregman(VariationalWassersteinDistance):
 
         # Initialize Bregman variables
         flux = solution_i[self.flux_slice]
+        old_flux = flux.copy()
         old_aux_flux = self._shrink(flux, shrink_factor)
         old_force = flux - old_aux_flux
         old_distance = self.l1_dissipation(flux)
@@ -2065,6 +2071,7 @@ class WassersteinDistanceBregman(VariationalWassersteinDistance):
                         break
 
                 # Update Bregman variables
+                old_flux = flux.copy()
                 old_aux_flux = new_aux_flux.copy()
                 old_force = new_force.copy()
                 old_distance = new_distance
@@ -2072,6 +2079,10 @@ class WassersteinDistanceBregman(VariationalWassersteinDistance):
             except Exception:
                 warnings.warn("Bregman iteration abruptly stopped due to some error.")
                 abruptly_stopped = True
+                # The flux may have been updated already; fall back to the last valid
+                # iterate, which the reported distance refers to.
+                flux = old_flux
+                new_distance = old_distance
                 break
 
         # Solve for the pressure by solving a single Newton iteration
